@@ -113,7 +113,7 @@ def stable_spec(rnd):
         for k in range(1, len(sp["reactions"]) + 1):
             part = dict(sp, reactions=sp["reactions"][:k], rules=[],
                         params={q: (v * 1.5 if q.startswith(("k_", "g1")) else v) for q, v in sp["params"].items()})
-            if not (gen.bounded(part, 2.0, 200.0) and gen.ssa_screen(part, 2.0, max_events=1500, trials=2, seed=rnd.getrandbits(30))):
+            if gen.superlinear_producer(part) or not (gen.bounded(part, 2.0, 200.0) and gen.ssa_screen(part, 2.0, max_events=1500, trials=2, seed=rnd.getrandbits(30))):
                 ok = False
                 break
         if ok:
